@@ -57,6 +57,11 @@ func (s *scanner) Scan(value bytes.Bytes) (*Number, error) {
 		return nil, err
 	}
 
+	if len(n.nat) == 0 {
+		// Zero has no sign: "-0" and "-0.0" are equal to "0".
+		n.neg = false
+	}
+
 	return &n, nil
 }
 
@@ -135,6 +140,7 @@ func (s *scanner) stateMinusFound(c byte) bool {
 
 func (s *scanner) stateFirstZeroFound(c byte) bool {
 	if c == '.' {
+		s.finished = false
 		s.stateFn = s.statePointFound
 		return true
 	}
@@ -147,9 +153,11 @@ func (s *scanner) stateIntegerNumberFound(c byte) bool {
 		s.intLen++
 
 	case '.':
+		s.finished = false
 		s.stateFn = s.statePointFound
 
 	case 'e', 'E':
+		s.finished = false
 		s.stateFn = s.stateExpFound
 	default:
 		return false
@@ -171,6 +179,7 @@ func (s *scanner) stateFractionalNumberFound(c byte) bool {
 	case '0', '1', '2', '3', '4', '5', '6', '7', '8', '9':
 		s.fraLen++
 	case 'e', 'E':
+		s.finished = false
 		s.stateFn = s.stateExpFound
 	default:
 		return false
@@ -181,12 +190,14 @@ func (s *scanner) stateFractionalNumberFound(c byte) bool {
 func (s *scanner) stateExpFound(c byte) bool {
 	switch c {
 	case '+':
+		s.finished = false
 		s.stateFn = s.stateExpSignFound
 
 	case '-':
 		if s.expBegin == 0 {
 			s.expBegin = s.index
 		}
+		s.finished = false
 		s.stateFn = s.stateExpSignFound
 
 	case '0', '1', '2', '3', '4', '5', '6', '7', '8', '9':
